@@ -264,6 +264,18 @@ def l3_run(carve):
                     (f"row_number(partition_by={lname} column, arrange=h)", lambda mklit=mklit: t >> pdt.mutate(k=mklit()) >> pdt.mutate(r=pdt.row_number(partition_by=pdt.C.k, arrange=t.h)) >> pdt.select(t.h, pdt.C.r), lambda out: sorted(out.rows()) == [(h, h + 1) for h in range(7)]),
                     (f"filter(s == {lname} column)", lambda mklit=mklit: t >> pdt.mutate(k=mklit()) >> pdt.filter(pdt.C.k.cast(pdt.String()) == t.s) >> pdt.select(t.h), lambda out, val=val: sorted(out["h"].to_list()) == [h for h, v in enumerate(sv) if v == str(val)]),
                 ]
+            # sort keys / partitions that differ ONLY in a literal are different keys
+            k1 = lambda: (t.s != "it's")  # noqa: E731
+            k2 = lambda: (t.s != "a%b")  # noqa: E731
+            key_py = lambda v: (v is None, (v != "it's") if v is not None else False, (v != "a%b") if v is not None else False)  # noqa: E731
+            want_h = [h for _, h in sorted((key_py(v), h) for h, v in enumerate(sv))]
+            cases += [
+                ("arrange((s != lit1).nulls_last, (s != lit2).nulls_last, h)  [keys differ only in the literal]", lambda: t >> pdt.arrange(k1().nulls_last(), k2().nulls_last(), t.h) >> pdt.select(t.h), lambda out: out["h"].to_list() == want_h),
+                ("arrange(s == 'x', s == 'q_', h)", lambda: t >> pdt.arrange((t.s == "x").nulls_last(), (t.s == "q_").nulls_last(), t.h) >> pdt.select(t.h),
+                 lambda out: out["h"].to_list() == [h for _, h in sorted(((v is None, v == "x", v == "q_"), h) for h, v in enumerate(sv))]),
+                ("row_number(arrange=[s != lit1, s != lit2, h])", lambda: t >> pdt.mutate(r=pdt.row_number(arrange=[k1().nulls_last(), k2().nulls_last(), t.h])) >> pdt.select(t.h, pdt.C.r),
+                 lambda out: sorted(out.rows()) == sorted((h, i + 1) for i, h in enumerate(want_h))),
+            ]
             for label, mk, ok in cases:
                 n += 1
                 try:
